@@ -35,9 +35,25 @@ abbrev RR := Res Unit × Rt × W
 
 def toUsize (i : Int) : Nat := if i < 0 then (2^64 - i.natAbs) else i.toNat
 
-/-- `iter_array` exactly as coded (note: `limit` is clamped by the *original* length and the
-vector is then `resize`d, which pads with nil). -/
+/-- `iter_array` exactly as coded (`min`, `min`, `drain`, `resize`, `reverse`).  `resize` pads with
+nil when asked for more than what is left; C05_window proves that branch dead. -/
+def iterWindow (xs : List V) (limit : Option Nat) (offset : Nat) : List V :=
+  let len := xs.length
+  let offset := min offset len
+  let limit := match limit with
+    | some l => min l (len - offset)
+    | none => len - offset
+  let r := xs.drop offset                       -- range.drain(0..offset)
+  if limit ≤ r.length then r.take limit          -- range.resize(limit, Nil)
+  else r ++ List.replicate (limit - r.length) V.nil
+
 def iterArray (xs : List V) (limit : Option Nat) (offset : Nat) (reversed : Bool) : List V :=
+  let r := iterWindow xs limit offset
+  if reversed then r.reverse else r
+
+/-- `iter_array` as it was at the pinned commit (limit clamped by the *original* length): kept
+only to state the counterexample that motivated the `fix:` commit. -/
+def iterArrayOld (xs : List V) (limit : Option Nat) (offset : Nat) (reversed : Bool) : List V :=
   let len := xs.length
   let offset := min offset len
   let limit := match limit with
